@@ -1,7 +1,9 @@
 """The crash / redelivery protocol model (lean/AslModel/Crash.lean) against real crash runs of the engine (C04).
 
-From a crash-free reference run: the execution's *skeleton* (every event the engine published is one state visit; the
-Branch stacks in the event contexts give the tree).  From a crash run: the abstract *schedule* — one operation per
+The execution's *skeleton* (every state visit of the crash-free run, fan-outs with their branches) is computed by the
+reference semantics (`model_skeleton`: `sk` of Asl.run's outcome); `skeleton` reads the same off a crash-free reference
+run of the engine (every event the engine published is one state visit; the Branch stacks in the event contexts give the
+tree) and serves as the cross-check, and as the fallback where the reference semantics has no run.  From a crash run: the abstract *schedule* — one operation per
 handler invocation of the engine (the broker delivering an event or a reply, a deferred handler running from a timer,
 the orphan handler), the crash as an operation of its own or as a cut after the k-th publish/ack of a handler.  Events
 are named by their ordinal in publication order, which the model reproduces (it publishes in the order the code does).
@@ -359,6 +361,86 @@ def skeleton(machines, lab, plans=None):
     if m is None:
         raise Unsupported("the machine of the execution is not known")
     return Build(first.execution, m).seq((), 0, [])
+
+
+def model_skeleton(m):
+    """the skeleton of the run as the reference semantics computes it (`sk` of `Asl.run`'s outcome: every state visit in
+    order, fan-outs with the visits of their branches), in the form `skeleton` gives, under the same restrictions:
+    raises `Unsupported` for what the crash protocol model's skeletons do not have"""
+    if m.get("status") not in ("SUCCEEDED", "FAILED") or "sk" not in m:
+        raise Unsupported("the reference semantics has no run (%s)" % m.get("status"))
+    failed = m.get("status") == "FAILED"
+    if m.get("late"):
+        raise Unsupported("a Task that ran into its time limit")
+
+    def conv(toks, depth, tail_free):
+        """`tail_free`: nothing follows this scope at any enclosing level"""
+        out = []
+        for n, t in enumerate(toks):
+            last = n == len(toks) - 1
+            if isinstance(t, dict):
+                if not t["par"]:
+                    if not last:
+                        raise Unsupported("a fan-out that launched nothing")
+                    out.append({"par": [], "mc": t["mc"]})
+                    continue
+                brs = [conv(b, depth + 1, tail_free and last) for b in t["par"]]
+                mc = t["mc"]
+                if mc:
+                    for i, b in enumerate(t["par"]):
+                        if '"X"' in json.dumps(b) and i // mc < (len(t["par"]) - 1) // mc:
+                            raise Unsupported("a fan-out not all of whose branches were launched")
+                out.append({"par": brs, "mc": mc})
+            elif t == "Q":
+                raise Unsupported("a Task visit that ended without a request")
+            elif t == "P":
+                raise Unsupported("a fan-out that launched nothing")
+            elif t == "F":
+                if depth:
+                    raise Unsupported("a Fail state inside a branch")
+                out.append("S")
+            elif t == "X":
+                if depth and last:
+                    if not failed or not tail_free:
+                        raise Unsupported("a failing branch whose fan-out is retried / caught / not the end")
+                    out.append("X")
+                else:
+                    out.append("T")
+            else:
+                out.append(t)
+        return out
+    sk = conv(m["sk"], 0, True)
+    if json.dumps(sk).count('"X"') > 1:
+        raise Unsupported("several failing branches: which one ends the execution depends on what a crash delays")
+    return sk
+
+
+def legacy_view(skel, depth=0):
+    """the skeleton in the vocabulary of `model_skeleton` (Task visits without their RetryCount, a Task that fails its
+    fan-out and with it the execution as "X"), or None where that vocabulary has no word for it (child executions, failures
+    that a fan-out state handles, paths not taken)"""
+    out = []
+    for n, t in enumerate(skel):
+        last = n == len(skel) - 1
+        if t in ("S", "W"):
+            out.append(t)
+        elif t == "T" or (isinstance(t, dict) and "T" in t):
+            out.append("T")
+        elif isinstance(t, dict) and "par" in t:
+            brs = [legacy_view(b, depth + 1) for b in t["par"]]
+            if any(b is None for b in brs):
+                return None
+            out.append({"par": brs, "mc": t.get("mc", 0)})
+        elif isinstance(t, dict) and "fail" in t:
+            if t["fail"] is not None or not last or not out:
+                return None
+            if depth and out[-1] == "T":
+                out[-1] = "X"
+            elif depth:
+                return None
+        else:
+            return None
+    return out
 
 
 class Labeller(object):
